@@ -12,6 +12,7 @@ import (
 	"sync"
 	"time"
 
+	"github.com/DataDog/datadog-traceroute/packets"
 	"github.com/DataDog/datadog-traceroute/publicip"
 	"github.com/DataDog/datadog-traceroute/reversedns"
 	"github.com/DataDog/datadog-traceroute/traceroute"
@@ -22,6 +23,7 @@ import (
 	"verif/harness/gen"
 	"verif/harness/refmatch"
 	"verif/harness/scripted"
+	"verif/harness/simnet"
 	"verif/harness/wirefmt"
 )
 
@@ -91,6 +93,40 @@ func netBehaviours() []netBehaviour {
 				e.inject(b, "dupstream-dest", p, oddUS(at))
 			}
 		}},
+	}
+}
+
+// runC08NoHandshake: the SYN-ACK of the SACK handshake never reaches the capture handle (and noise does): the run
+// must give up within dial + 500 ms.
+func runC08NoHandshake(c *fw.Ctx, id string, v refmatch.Variant, noise bool) {
+	spec := defaultSpec(v, c.Worker, 1, 6)
+	e, err := newSimEnv(c, spec, 0x10000000)
+	if err != nil {
+		c.Inconclusive(err.Error())
+		return
+	}
+	defer e.close()
+	e.peer.ShowSynAck = false
+	if noise {
+		prev := e.w.OnFilter
+		e.w.OnFilter = func(h *simnet.Handle, s packets.PacketFilterSpec) {
+			prev(h, s)
+			for i := 0; i < 3000; i++ {
+				e.inject(udpFrame(uniqueAddr(false, 9000+i), drive.Local4, 53, 4000, false), "flood:handshake", nil, oddUS(time.Duration(i)*300*time.Microsecond))
+			}
+		}
+	}
+	res := e.run(&pathModel{hops: map[int]*hopSpec{}})
+	el := res.End.Sub(res.Start)
+	bound := spec.HandshakeTimeout + 600*time.Millisecond
+	c.Nontrivial(fmt.Sprintf("no-handshake/%s/noise%v", v.Name, noise))
+	if res.Err == nil {
+		c.Violate("C08", "no-handshake-succeeded/"+v.Name, id+": the handshake was never captured but the run succeeded", nil)
+	}
+	if e.handle != nil && e.handle.ReadOverrun {
+		c.Violate("C08", "runaway-reader/"+v.Name, id+": the handshake reader kept reading without bound (stopped by the harness after 400000 reads)", nil)
+	} else if el > bound {
+		c.Violate("C08", "bound/"+v.Name, fmt.Sprintf("%s: run without a captured handshake took %v of virtual time, bound %v", id, el, bound), nil)
 	}
 }
 
@@ -488,6 +524,13 @@ func checkC08() fw.Check {
 						id := fmt.Sprintf("C08/net/%s/%s/%d-%d", v.Name, nb.name, w.first, w.last)
 						cases = append(cases, fw.Case{ID: id, Bubble: true, Run: func(c *fw.Ctx) { runC08Net(c, id, v, nb, w) }})
 					}
+				}
+			}
+			for _, vn := range []string{"sackR", "sackS"} {
+				for _, noise := range []bool{false, true} {
+					vn, noise := vn, noise
+					id := fmt.Sprintf("C08/no-handshake/%s/noise%v", vn, noise)
+					cases = append(cases, fw.Case{ID: id, Bubble: true, Run: func(c *fw.Ctx) { runC08NoHandshake(c, id, refmatch.VariantByName(vn), noise) }})
 				}
 			}
 			// cancellation grid: every send and poll boundary +-1us, plus seeded random instants
